@@ -5,8 +5,8 @@
    compares it entry for entry with the map dumped from the running library. *)
 From Coq Require Import NArith List String Ascii Bool.
 Import ListNotations.
-Open Scope N_scope.
-Open Scope string_scope.
+Local Open Scope N_scope.
+Local Open Scope string_scope.
 
 Record fieldhdr := { fh_class : N ; fh_field : N ; fh_hasmask : bool ; fh_length : N }.
 
